@@ -413,3 +413,21 @@ def entry_paths_to(prog, body, block):
             if n not in p:
                 st.append((n, p + [n]))
     return out
+
+
+def variant_arms(prog, key):
+    """For a function that matches on `self` and returns a phi: {variant name: simplified returned term}."""
+    from ..pred import facts_at
+    body = prog.need_body(key)
+    s = sym_of(body)
+    ret = s.val((0, ()), body.cfg.returns[0], "term")
+    arms = {}
+    if ret[0] != "phi":
+        return body, {None: prog.simp(ret, body)}
+    for p, v in s.phi_inputs(ret).items():
+        var = None
+        for a, pol in facts_at(prog, body, p):
+            if pol and a[0] == "variant" and a[1][0] == "param":
+                var = a[2]
+        arms[var] = prog.simp(v, body)
+    return body, arms
